@@ -82,6 +82,7 @@ type ledgers struct {
 	persisted    map[uint64]map[[2]uint64]bool // nid -> (term, vote) pairs seen durable on its disk
 	connTerm     map[int]uint64
 	reportedTerm map[uint64]uint64 // nid -> highest term it put on the wire in a response or vote request
+	floor        map[uint64]uint64 // nid -> highest index it must still hold after a crash
 	ackedIdx     map[uint64]uint64 // nid -> highest index acknowledged with success (across incarnations)
 }
 
@@ -100,6 +101,7 @@ func newLedgers(c *cluster) *ledgers {
 		connTerm: map[int]uint64{},
 		persisted: map[uint64]map[[2]uint64]bool{},
 		ackedIdx: map[uint64]uint64{},
+		floor: map[uint64]uint64{},
 	}
 }
 
@@ -109,6 +111,20 @@ func (l *ledgers) onStart(n *simNode) {
 	c := l.c
 	r := n.r
 	l.notePersisted(n.id, n.dir)
+	if n.inc > 1 {
+		c.stats.class("restarted")
+		// everything it acknowledged as stored (or committed) and did not truncate since
+		if fl := l.floor[n.id]; r.lastLogIndex < fl {
+			c.fail("restart-consistent", "restart-lost-acked", "node %d restarted with last index %d although it had acknowledged/committed up to %d", n.id, r.lastLogIndex, fl)
+		}
+		prev, snap := r.log.PrevIndex(), r.snaps.index
+		if prev > snap || snap > r.lastLogIndex {
+			c.fail("restart-consistent", "restart-log-snapshot-gap", "node %d restarted with log starting after %d, snapshot at %d, last index %d", n.id, prev, snap, r.lastLogIndex)
+		}
+		if r.log.LastIndex() != r.lastLogIndex && r.log.Count() > 0 {
+			c.fail("restart-consistent", "restart-log-bookkeeping", "node %d restarted with log last index %d but lastLogIndex %d", n.id, r.log.LastIndex(), r.lastLogIndex)
+		}
+	}
 	if rep := l.reportedTerm[n.id]; r.term < rep {
 		c.fail("term-monotonic", "term-lost-on-restart", "node %d restarted with term %d after reporting term %d", n.id, r.term, rep)
 	}
@@ -248,6 +264,9 @@ func (c *cluster) observe() {
 			}
 		case "compacted":
 			c.stats.class("compaction")
+		case "crashedAt":
+			c.stats.class("crashed-at-hook")
+			c.stats.class("crashed-at-" + e.s)
 		case "configReverted":
 			c.stats.class("config-reverted")
 		}
@@ -349,6 +368,7 @@ func (c *cluster) observeNode(n *simNode) {
 			}
 		}
 		c.stats.class("truncation")
+		l.lowerFloor(n.id, last)
 		if sh.truncFloor == 0 || last < sh.truncFloor {
 			sh.truncFloor = last
 		}
@@ -372,6 +392,10 @@ func (c *cluster) observeNode(n *simNode) {
 	}
 	if r.commitIndex > l.maxCommit {
 		l.maxCommit = r.commitIndex
+	}
+	if state == Leader && r.commitIndex <= last {
+		// a leader flushes its own log up to the commit index before advancing it
+		l.raiseFloor(n.id, r.commitIndex)
 	}
 	l.extendContig()
 
@@ -532,6 +556,8 @@ func (c *cluster) onEventPost(e *event) {
 		if e.state == Candidate || e.state == Leader {
 			// authority only for voters: checked on electionStarted with the config of that instant
 		}
+	case "snapshot":
+		c.onSnapshotEvent(e)
 	case "configChanged":
 		c.onConfigChanged(e)
 	case "shuttingDown":
@@ -703,4 +729,67 @@ func (l *ledgers) wasPersisted(nid, term, vote uint64) bool {
 	l.c.evMu.Lock()
 	defer l.c.evMu.Unlock()
 	return l.persisted[nid][[2]uint64{term, vote}]
+}
+
+// onSnapshotEvent: C09 (content, committed) and C12 (label) oracles for every
+// snapshot that reaches any disk.
+func (c *cluster) onSnapshotEvent(e *event) {
+	l := c.led
+	m := e.meta
+	c.stats.class("snapshot-stored")
+	if m.index > l.maxCommit {
+		c.fail("snapshot-content", "snapshot-uncommitted", "node %d stored a snapshot at index %d, highest commit index observed anywhere is %d", e.nid, m.index, l.maxCommit)
+		return
+	}
+	if m.index > l.contigCommit {
+		l.unobservedCommit++
+		return
+	}
+	ci := l.commit[m.index]
+	if ci != nil && ci.term != m.term {
+		c.fail("snapshot-label", "label-term", "node %d: snapshot at index %d labelled term %d, committed entry has term %d", e.nid, m.index, m.term, ci.term)
+	}
+	// content = committed updates up to the index
+	want := l.updCount[m.index]
+	if len(e.ids) != want {
+		c.fail("snapshot-content", "snapshot-count", "node %d: snapshot at index %d holds %d commands, committed log has %d updates up to there", e.nid, m.index, len(e.ids), want)
+	} else {
+		for i, id := range e.ids {
+			if id != l.updIDs[i] {
+				c.fail("snapshot-content", "snapshot-order", "node %d: snapshot at index %d command #%d is id %d, committed sequence has %d", e.nid, m.index, i+1, id, l.updIDs[i])
+				break
+			}
+		}
+	}
+	// label = newest committed configuration at or below the index
+	var want2 *Config
+	for i := range l.committedCfgs {
+		if l.committedCfgs[i].Index <= m.index {
+			want2 = &l.committedCfgs[i]
+		}
+	}
+	if want2 != nil {
+		if want2.Index > 1 {
+			c.stats.class("snapshot-after-config-change")
+		}
+		if !sameConfig(*want2, m.config) {
+			c.fail("snapshot-label", "label-config", "node %d: snapshot at index %d labelled with configuration %v, the configuration in force at that index is %v", e.nid, m.index, m.config, *want2)
+		}
+	}
+}
+
+func (l *ledgers) raiseFloor(nid, idx uint64) {
+	l.c.evMu.Lock()
+	if idx > l.floor[nid] {
+		l.floor[nid] = idx
+	}
+	l.c.evMu.Unlock()
+}
+
+func (l *ledgers) lowerFloor(nid, idx uint64) {
+	l.c.evMu.Lock()
+	if idx < l.floor[nid] {
+		l.floor[nid] = idx
+	}
+	l.c.evMu.Unlock()
 }
